@@ -59,6 +59,7 @@ class VttContext:
     self._background_colors_used: Dict[str, str] = {}
     self._config = config
     self._has_visible_text: bool = False
+    self._enclosing_bg_color: Optional[str] = None
 
     self._filters = []
 
@@ -115,6 +116,13 @@ class VttContext:
       color = style.get_color(element)
       bg_color = style.get_background_color(element)
 
+      if bg_color is None:
+        # the background of an enclosing span remains visible behind a span without background
+        bg_color = self._enclosing_bg_color
+
+      enclosing_bg_color = self._enclosing_bg_color
+      self._enclosing_bg_color = bg_color
+
       if color is not None:
         if self._colors_used.get(color) is None:
           color_classname = style.get_color_classname(color)
@@ -122,7 +130,6 @@ class VttContext:
           self._css_classes.append(CssClass("color", color, color_classname))
         else:
           color_classname = self._colors_used[color]
-        self._paragraphs[-1].append_text(style.COLOR_TAG_IN.format(color_classname))
 
       if bg_color is not None:
         if self._background_colors_used.get(bg_color) is None:
@@ -131,28 +138,41 @@ class VttContext:
           self._css_classes.append(CssClass("background-color", bg_color, bg_color_classname))
         else:
           bg_color_classname = self._background_colors_used[bg_color]
-        self._paragraphs[-1].append_text(style.BG_COLOR_TAG_IN.format(bg_color_classname))
 
-      if is_bold:
-        self._paragraphs[-1].append_text(style.BOLD_TAG_IN)
-      if is_italic:
-        self._paragraphs[-1].append_text(style.ITALIC_TAG_IN)
-      if is_underlined:
-        self._paragraphs[-1].append_text(style.UNDERLINE_TAG_IN)
+      # the tags enclose the text nodes of the span itself: nested spans carry their own computed
+      # styles, which may set back to normal what an enclosing span has switched on
 
       for elem in list(element):
+
+        if not isinstance(elem, model.Text):
+          self.process_inline_element(elem, begin, end)
+          continue
+
+        if color is not None:
+          self._paragraphs[-1].append_text(style.COLOR_TAG_IN.format(color_classname))
+        if bg_color is not None:
+          self._paragraphs[-1].append_text(style.BG_COLOR_TAG_IN.format(bg_color_classname))
+        if is_bold:
+          self._paragraphs[-1].append_text(style.BOLD_TAG_IN)
+        if is_italic:
+          self._paragraphs[-1].append_text(style.ITALIC_TAG_IN)
+        if is_underlined:
+          self._paragraphs[-1].append_text(style.UNDERLINE_TAG_IN)
+
         self.process_inline_element(elem, begin, end)
 
-      if is_underlined:
-        self._paragraphs[-1].append_text(style.UNDERLINE_TAG_OUT)
-      if is_italic:
-        self._paragraphs[-1].append_text(style.ITALIC_TAG_OUT)
-      if is_bold:
-        self._paragraphs[-1].append_text(style.BOLD_TAG_OUT)
-      if color is not None:
-        self._paragraphs[-1].append_text(style.COLOR_TAG_OUT)
-      if bg_color is not None:
-        self._paragraphs[-1].append_text(style.BG_COLOR_TAG_OUT)
+        if is_underlined:
+          self._paragraphs[-1].append_text(style.UNDERLINE_TAG_OUT)
+        if is_italic:
+          self._paragraphs[-1].append_text(style.ITALIC_TAG_OUT)
+        if is_bold:
+          self._paragraphs[-1].append_text(style.BOLD_TAG_OUT)
+        if bg_color is not None:
+          self._paragraphs[-1].append_text(style.BG_COLOR_TAG_OUT)
+        if color is not None:
+          self._paragraphs[-1].append_text(style.COLOR_TAG_OUT)
+
+      self._enclosing_bg_color = enclosing_bg_color
 
     if isinstance(element, (model.Ruby, model.Rbc, model.Rb)):
       # keep the ruby base text; ruby annotations (rt, rtc, rp) are not written
